@@ -221,6 +221,11 @@ def calls(fam: str, a: dict) -> List[Tuple[str, List[Any], Callable[[], Any]]]:
         thunk = {"normalize_wf": lambda: K.normalize(weight_factor=m), "normalize_mode": lambda: K.normalize(mode=m),
                  "redistribute": lambda: K.redistribute(m), "arrange_wf": lambda: K.arrange(weight_factor=m)}[a["op"]]
         out.append((f"ktensor.{a['op']}", [K], thunk))
+    elif fam == "k_extract":
+        K = mk_kt([2, 3, 2], [a["R"]] * 3)
+        ix = [int(i) for i in a["idx"]]
+        arg = {"list": ix, "tuple": tuple(ix), "array": I(ix), "int": (np.int64(ix[0]) if a["R"] % 2 == 0 else ix[0]) if ix else None}[a["form"]]
+        out.append(("ktensor.extract", [K], lambda: K.extract(arg)))
     elif fam == "tt_reconstruct":
         T = ttb.ttensor(mk_dense([2, 2, 2]), [np.arange(1.0, 2 * r + 1).reshape(r, 2) for r in (3, 4, 2)])
         ms = [int(m) for m in a["modes"]]
